@@ -193,7 +193,8 @@ func genDataFiles(t *rapid.T) []TarFile {
 			seenDir[d] = true
 			files = append(files, TarFile{Name: d, Type: "dir"})
 		}
-		name := d + genFromAlphabet(t, "fname", "abcxyz019._-", 1, 10)
+		// never "." or "..": those are not file names (found as a harness false alarm in the dpkg-deb sub-check)
+		name := d + genFromAlphabet(t, "fname0", "abcxyz019", 1, 1) + genFromAlphabet(t, "fname", "abcxyz019._-", 0, 9)
 		if rapid.IntRange(0, 5).Draw(t, "sym") == 0 {
 			files = append(files, TarFile{Name: name, Type: "symlink", Link: "target" + genFromAlphabet(t, "lt", "abc", 0, 3)})
 		} else {
